@@ -68,6 +68,7 @@ def dispatch (line : String) : String :=
     | "mboxlist" => C17.mboxlistOp args
     | "mboxparse" => C17.mboxparseOp args
     | "date" => C17.dateOp args
+    | "dparse" => C17.dparseOp args
     | "typed" => C17.typedOp args
     | "build" => C17.buildOp args
     | "hdrs" => C02.hdrsOp args
